@@ -673,3 +673,46 @@ def free_vars(t) -> set:
             out.add(x.decl().name())
         stack.extend(x.children())
     return out
+
+
+# --------------------------------------------------------------------------
+# numeric falsification (candidate counterexamples; confirmation is always by replay on the real code)
+
+def sample_points(c: Ctx, terms, k=4, seed=3, lo=0.2, hi=2.5, tries=400, extra=None):
+    """assignments {var: float} satisfying the path condition of ``c`` (checked by numeric evaluation)."""
+    import random
+    extra = extra or {}
+    names = set()
+    asserts = list(c.solver.assertions())
+    for t in list(terms) + asserts:
+        names |= free_vars(t)
+    names = sorted(n for n in names if n not in extra)
+    pts = []
+    rnd = random.Random(seed)
+    n_try = 0
+    while len(pts) < k and n_try < tries:
+        n_try += 1
+        asg = {n: round(rnd.uniform(lo, hi), 3) for n in names}
+        asg.update(extra)
+        try:
+            if all(evalnum(a, asg) for a in asserts):
+                pts.append(asg)
+        except (ValueError, ZeroDivisionError, OverflowError, TypeError, Inconclusive):
+            continue
+    return pts
+
+
+def falsify(c: Ctx, g, w, points, tol=1e-6):
+    """first point at which the terms g and w differ numerically, or None"""
+    for asg in points:
+        try:
+            a, b = evalnum(g, asg), evalnum(w, asg)
+        except (ValueError, ZeroDivisionError, OverflowError, TypeError, Inconclusive):
+            continue
+        if isinstance(a, bool) or isinstance(b, bool):
+            continue
+        if math.isnan(a) or math.isnan(b) or math.isinf(a) or math.isinf(b):
+            continue
+        if abs(a - b) > tol * max(1.0, abs(a), abs(b)):
+            return asg, a, b
+    return None
